@@ -429,6 +429,13 @@ def main(ctx):
                  "s": 1, "func": "vector"}, 2))
     esc.append(({"strategy": "es", "d": 2, "lmin": 1, "lmax": 2, "version": 0, "nref": 1, "automatic": False, "single_dim": True,
                  "s": 1, "func": "vector"}, 2))
+    # runs that START with lmax == lmin (legal; every area begins at the coarsest possible local scheme)
+    esc.append(({"strategy": "es", "d": 2, "lmin": 1, "lmax": 1, "version": 0, "nref": 1, "automatic": False, "single_dim": False,
+                 "s": 1, "func": "vector"}, 3))
+    esc.append(({"strategy": "es", "d": 2, "lmin": 2, "lmax": 2, "version": 0, "nref": 1, "automatic": False, "single_dim": False,
+                 "s": 1, "func": "scalar", "towards": [[0.3, 0.3], [0.8, 0.8]]}, 3 if q else 4))
+    esc.append(({"strategy": "es", "d": 3, "lmin": 1, "lmax": 1, "version": 0, "nref": 1, "automatic": False, "single_dim": False,
+                 "s": 1, "special": False, "func": "vector", "towards": [[0.3, 0.3, 0.3], [0.8, 0.8, 0.2]]}, 2 if q else 3))
     # other grid families under extend-split (high-order grids switch the automatic mode to the parent-based estimates)
     for grid in ("lagrange2", "bspline3", "simpson"):
         for auto in (False, True):
@@ -437,7 +444,7 @@ def main(ctx):
     esc.append(({"strategy": "es", "d": 2, "lmin": 1, "lmax": 2, "version": 0, "nref": 1, "automatic": True, "single_dim": False,
                  "s": 1, "grid": "lagrange2", "func": "vector", "towards": [[0.3, 0.3], [0.8, 0.8]]}, 4))
     for cfg, D in esc:
-        tag = "es_%s_d%d_lmax%d_nref%d_auto%d_single%d_%s_D%d_s%d" % (cfg.get("grid", "trapezoidal"), cfg["d"], cfg["lmax"], cfg["nref"], cfg["automatic"],
+        tag = "es_%s_d%d_lmin%d_lmax%d_nref%d_auto%d_single%d_%s_D%d_s%d" % (cfg.get("grid", "trapezoidal"), cfg["d"], cfg["lmin"], cfg["lmax"], cfg["nref"], cfg["automatic"],
                                                                      cfg["single_dim"], cfg["func"], D, cfg["s"])
         ctx.bounds[tag] = core.bfs(ctx, cfg, D, tag=tag)
     return ctx.finish(
